@@ -7,6 +7,7 @@ import (
 	"os"
 	"path/filepath"
 	"sort"
+	"time"
 
 	"go.sia.tech/core/consensus"
 	"go.sia.tech/core/types"
@@ -78,9 +79,14 @@ func GenPlan(r *rng.R, t *chaingen.Tree, flavors []string, density int) []Step {
 
 // Shrink drops steps while the failure of the given kind persists.
 func Shrink(c Case, kind string, fails func(Case) string) Case {
-	for changed := true; changed; {
+	// (bounded: histories over large trees are expensive to re-run)
+	deadline := time.Now().Add(40 * time.Second)
+	for changed := true; changed && time.Now().Before(deadline); {
 		changed = false
 		for i := range c.Plan {
+			if time.Now().After(deadline) {
+				break
+			}
 			d := c
 			d.Plan = append(append([]Step(nil), c.Plan[:i]...), c.Plan[i+1:]...)
 			if fails(d) == kind {
